@@ -74,6 +74,7 @@ def run(rep: core.Report):
     _r17k(rep)
     _r17l(rep)
     _r17m(rep)
+    _r17n(rep)
     from rules import shared_bcast
 
     shared_bcast.run(rep, "R17j", sorted(core.python_files("phonopy/interface")))
@@ -895,6 +896,40 @@ def _r17k(rep):
 
 
 
+def _r17n(rep):
+    """Writers with a species header and per-atom type indices: the indices are positions in the list that is written."""
+    rep.rule("R17n", "structure writers that emit a species list and, per atom, an index into it (DFTB+ gen, ABINIT typat / znucl): the list in which each atom's index is looked up (X.index(v), the unique values of np.unique(..., return_inverse=True)) is the very list written as the header, so that the reader -- which resolves index k to the k-th header entry -- recovers the species of every atom whatever the order of first appearance", 2)
+    for rel, fname in (("phonopy/interface/dftbp.py", "write_dftbp"), ("phonopy/interface/abinit.py", "get_abinit_structure")):
+        fn = core.find_def(rel, fname)
+        # names that reach the output text: arguments of str.join, operands of '%' formatting, f-string parts,
+        # iterables of loops whose body extends the text
+        written = set()
+        for x in ast.walk(fn):
+            if isinstance(x, ast.Call) and isinstance(x.func, ast.Attribute) and x.func.attr == "join":
+                written |= {n_.id for a in x.args for n_ in ast.walk(a) if isinstance(n_, ast.Name)}
+            if isinstance(x, ast.BinOp) and isinstance(x.op, ast.Mod):
+                written |= {n_.id for n_ in ast.walk(x.right) if isinstance(n_, ast.Name)}
+            if isinstance(x, ast.JoinedStr):
+                written |= {n_.id for n_ in ast.walk(x) if isinstance(n_, ast.Name)}
+            if isinstance(x, ast.Call) and isinstance(x.func, ast.Attribute) and x.func.attr == "format":
+                written |= {n_.id for a in x.args for n_ in ast.walk(a) if isinstance(n_, ast.Name)}
+            if isinstance(x, ast.For) and any(isinstance(y, ast.AugAssign) or (isinstance(y, ast.Call) and isinstance(y.func, ast.Attribute) and y.func.attr == "append") for y in ast.walk(x)):
+                written |= {n_.id for n_ in ast.walk(x.iter) if isinstance(n_, ast.Name)}
+        lookups = []  # (node, name of the list the index refers to)
+        for x in ast.walk(fn):
+            if isinstance(x, ast.Call) and isinstance(x.func, ast.Attribute) and x.func.attr == "index" and len(x.args) == 1 and core.src(x.func.value) not in ("np", "numpy"):
+                lookups.append((x, x.func.value.id if isinstance(x.func.value, ast.Name) else core.norm(core.src(x.func.value), 40)))
+            if isinstance(x, ast.Assign) and isinstance(x.value, ast.Call) and core.src(x.value.func) == "np.unique" and any(k.arg == "return_inverse" for k in x.value.keywords) and isinstance(x.targets[0], ast.Tuple) and x.targets[0].elts:
+                first = x.targets[0].elts[0]
+                lookups.append((x, first.id if isinstance(first, ast.Name) else "<discarded>"))
+        if not lookups:
+            raise AnalysisError(f"R17n: {fname}: no per-atom species index found (X.index(v) or np.unique(..., return_inverse=True))")
+        for node, lst in lookups:
+            ok = lst in written and lst != "_"
+            rep.instance("R17n", rel, fname, f"{core.norm(core.src(node), 70)} : index into '{lst}', which is written as the header", ok,
+                         f"the per-atom species index of '{core.norm(core.src(node), 60)}' is a position in '{lst}', which is not the species list written to the file ({sorted(written & {n_.id for n_ in ast.walk(fn) if isinstance(n_, ast.Name)})[:6]} are written): when the two lists are ordered differently (first appearance vs alphabetical) the reader assigns the wrong element to the atoms", line=node.lineno)
+
+
 def _r17m(rep):
     """Per-vector scale factors of the input formats that have them, decided entry by entry on symbols."""
     import sympy as sp
@@ -1024,6 +1059,8 @@ def selftest():
     V = []
     b = lambda name, file, old, new, rule, expect="", **kw: V.append(dict(name=name, kind="break", file=file, old=old, new=new, rule=rule, expect=expect, **kw))
     n = lambda name, file, old, new, **kw: V.append(dict(name=name, kind="neutral", file=file, old=old, new=new, **kw))
+    b("DFTB+ type indices from the sorted unique symbols", "phonopy/interface/dftbp.py", "    atom_numbers = []\n    for ss in expaned_symbols:\n        atom_numbers.append(symbols.index(ss) + 1)\n", "    _, atom_numbers = np.unique(expaned_symbols, return_inverse=True)\n    atom_numbers = atom_numbers + 1\n", "R17n", "write_dftbp")
+    b("ABINIT typat looked up in the sorted numbers", "phonopy/interface/abinit.py", "        typat.append(znucl.index(n) + 1)", "        typat.append(sorted(znucl).index(n) + 1)", "R17n", "get_abinit_structure")
     b("Elk per-vector scales applied to the Cartesian columns", "phonopy/interface/elk.py", "    avec = [tags[\"scale\"][i] * np.array(tags[\"avec\"][i]) for i in range(3)]\n", "    avec = np.array(tags[\"avec\"], dtype=\"double\") * tags[\"scale\"]\n", "R17m", "read_elk")
     n("Elk per-vector scales by a column of factors", "phonopy/interface/elk.py", "    avec = [tags[\"scale\"][i] * np.array(tags[\"avec\"][i]) for i in range(3)]\n", "    avec = np.array(tags[\"avec\"], dtype=\"double\") * np.array(tags[\"scale\"])[:, None]\n")
     b("ABINIT acell applied to the Cartesian rows", "phonopy/interface/abinit.py", "    rprim = tags[\"rprim\"].T\n", "    rprim = tags[\"rprim\"]\n", "R17m", "read_abinit")
